@@ -262,7 +262,14 @@ func makeUmemo(twoU, n1 int, t []int) []map[ukey]float64 {
 	for A_2i := range A[2] {
 		Asum := 0.0
 		r2Low := max(0, A_2i.n1-t[0])
-		r2High := (A_2i.twoU - A_2i.n1*(t[0]-A_2i.n1)) / N_2
+		r2num := A_2i.twoU - A_2i.n1*(t[0]-A_2i.n1)
+		if r2num < 0 {
+			// twoU is below the smallest attainable value
+			// (integer division would round this up to 0).
+			A[2][A_2i] = 0
+			continue
+		}
+		r2High := r2num / N_2
 		for r2 := r2Low; r2 <= r2High; r2++ {
 			Asum += mathChoose(t[0], A_2i.n1-r2) *
 				mathChoose(t[1], r2)
